@@ -108,6 +108,10 @@ def run(ctx):
             files = [{"p": f"m{j}", "n": max(1, cpf * 64 - j), "s": 4321 * i + j} for j in range(nf)]
             cases.append({"name": f"skew-{nf}f-{cpf}c-{st}s-{'-'.join(map(str, delays))}-{'resume' if resume else 'fresh'}", "files": files, "chunk": 64, "streams": st,
                           "conns": len(delays), "conn_delays_ms": delays, "transport": "netsim", "noroot": True, "resume": resume, "timeout_ms": 12000})
+    # legal file names that are not valid UTF-8 (the manifest travels as JSON: see the C18 finding with the same root cause)
+    for i, nm in enumerate((b"caf\xe9.txt", b"d/a\xff")):
+        cases.append({"name": f"nonutf8-name-{i}", "files": [{"p": nm.hex(), "x": True, "n": 100, "s": 70 + i}, {"p": "ok.bin", "n": 50, "s": 80 + i}], "chunk": 64, "streams": 2,
+                      "conns": 1, "transport": "netsim", "noroot": True, "resume": bool(i), "timeout_ms": 6000, "_sig": "non-utf8-name"})
     rc, results = G.run_xfer(ctx, exe, "grid", cases, timeout=1700)
     if rc != 0 or len(results) != len(cases):
         ctx.oblige("harness:run", False, f"rc={rc} results={len(results)}/{len(cases)} {ctx.harness_stderr[-300:]}")
@@ -125,7 +129,7 @@ def run(ctx):
         if r.get("hang"):
             ctx.violation("C03:hang:" + c["transport"], f"healthy transfer {c['name']} did not finish within the watchdog: {r['hang']}; stuck at {r.get('stuck', [])[:4]}", rep)
         elif not (r.get("sender_ok") and r.get("recv_ok")):
-            ctx.violation("C03:failed:" + c["transport"], f"healthy transfer {c['name']} failed: sender={r.get('sender_err')!r} receiver={r.get('recv_err')!r}", rep)
+            ctx.violation("C03:failed:" + c.get("_sig", c["transport"]), f"healthy transfer {c['name']} failed: sender={r.get('sender_err')!r} receiver={r.get('recv_err')!r}", rep)
         else:
             completed += 1
             if r.get("elapsed_ms", 0) > 3000:
